@@ -68,6 +68,20 @@ type World struct {
 	reqsOpen  int
 	tgtOf     map[*server.Target]string
 	cmdDone   map[string]chan struct{}
+	extra     KV
+	hmu       sync.RWMutex
+}
+
+func (w *World) setHandler(h http.Handler) {
+	w.hmu.Lock()
+	w.handler = h
+	w.hmu.Unlock()
+}
+
+func (w *World) getHandler() http.Handler {
+	w.hmu.RLock()
+	defer w.hmu.RUnlock()
+	return w.handler
 }
 
 type lockedBuffer struct {
@@ -167,12 +181,11 @@ func (w *World) setup(scn int) {
 			panic(err)
 		}
 		isTLS := addr == proxyHTTPS
-		h := w.handler
 		srv := &http.Server{Handler: http.HandlerFunc(func(rw http.ResponseWriter, r *http.Request) {
 			if isTLS {
 				r.TLS = &tls.ConnectionState{HandshakeComplete: true, ServerName: r.Host}
 			}
-			h.ServeHTTP(rw, r)
+			w.getHandler().ServeHTTP(rw, r)
 		})}
 		w.front = append(w.front, srv)
 		go srv.Serve(ln)
@@ -263,6 +276,8 @@ func (w *World) run(scn int) {
 		sched = newPCT(w.rng, d, 200)
 	case "freeze":
 		sched = newFreeze(w.rng)
+	case "guided":
+		sched = &guidedSched{list: plan.Decisions, ctl: w.ctl, rng: w.rng}
 	case "replay":
 		sched = &replaySched{list: plan.Decisions, fallback: &randomSched{w.rng}, ctl: w.ctl}
 	default:
@@ -332,6 +347,9 @@ func (w *World) run(scn int) {
 	}
 	time.Sleep(settle)
 	synctest.Wait()
+	if plan.Sched == "guided" {
+		w.rec.Emit("guided", KV{"hits": w.ctl.Hits, "misses": w.ctl.Misses, "missed": nonNil(w.ctl.Missed)})
+	}
 	w.rec.Emit("end", nil)
 	w.teardown()
 }
@@ -558,6 +576,7 @@ func (w *World) runLane(i int, lane []Cmd) {
 		default:
 		}
 		w.execCmd(cmd)
+		w.ctl.Park("op_done", actor, false)
 	}
 }
 
@@ -642,10 +661,14 @@ func (w *World) execCmd(cmd Cmd) {
 	actor := "c:" + cmd.ID
 	w.ctl.BindGoroutine(actor)
 	defer w.ctl.UnbindGoroutine()
-	w.rec.Emit("cmd_call", KV{"c": cmd.ID, "kind": cmd.Kind, "svc": cmd.Svc, "targets": nonNil(cmd.Targets),
+	call := KV{"c": cmd.ID, "kind": cmd.Kind, "svc": cmd.Svc, "targets": nonNil(cmd.Targets),
 		"dto": cmd.DeployTimeoutMs, "drto": cmd.DrainTimeoutMs, "max_pause": cmd.MaxPauseMs, "msg": cmd.Msg,
 		"hosts": nonNil(cmd.Hosts), "paths": nonNil(cmd.Paths), "pct": cmd.Pct, "allow": nonNil(cmd.Allow),
-		"hc_interval": dflt(cmd.HCIntervalMs, 1000), "hc_timeout": dflt(cmd.HCTimeoutMs, 500)})
+		"hc_interval": dflt(cmd.HCIntervalMs, 1000), "hc_timeout": dflt(cmd.HCTimeoutMs, 500)}
+	for k, v := range w.extra {
+		call[k] = v
+	}
+	w.rec.Emit("cmd_call", call)
 	res := ""
 	var listing any
 	func() {
